@@ -39,8 +39,13 @@ def queries(tier, seed=0):
             continue
         sh = Shape.from_json(q['shape'])
         addrs = sh.addrs
+        if tier != 'quick' and (q.get('os') not in (None, 'o0') or (q.get('name') or 's0')[1:] != '0'):
+            continue        # the goal test does not look at names: one name / OS variant per kind
         for k in range(1, len(addrs) + 1):
-            for sub in itertools.combinations(addrs, k):
+            subs = list(itertools.combinations(addrs, k))
+            if tier != 'quick' and len(addrs) >= 4:
+                subs = [subs[0], subs[-1]]      # four hosts: first and last subset of each size
+            for sub in subs:
                 if tier == 'quick' and q['kind'] == 'noop' and k != len(addrs):
                     continue
                 d = dict(q)
